@@ -29,6 +29,7 @@ from mc.ref.digest import ref_digest
 from mc.ref.grouping import check_grouping
 
 PROPERTY = "C16"
+SIZE_MODULES = ['mokapot.parsers.fasta', 'mokapot.proteins']  # see mc.runner._sized_passes
 LEVEL = "exploration"
 RULE = (
     "case = one execution of read_fasta: (FASTA entries in file order, each a name and a tuple of peptide tokens; "
